@@ -37,7 +37,7 @@ def build_battery(mm, py, heavy=True):
         if heavy and (root.kind == "RESP" or x % 3 == 0):
             seen = set()
             for lab, tree, site, alt in forced_cases(mm, root, "C19-battery", containers=(0.0,)):
-                if (site, alt) in seen:
+                if (site, alt) in seen and "long130x" not in lab:  # keep the long cross-alternative arrays
                     continue
                 seen.add((site, alt))
                 bat.append((lab, root.cls, to_json(tree)))
@@ -54,6 +54,20 @@ def build_battery(mm, py, heavy=True):
         (T.ServerCapabilities, {"textDocumentSync": 987654}),
         (T.Location, {"uri": "u"}),
         (T.InitializeRequest, {"jsonrpc": "2.0", "id": 1, "method": "bogus", "params": {"capabilities": {}}}),
+        # numbers in other spellings / types at integer positions, particular string contents: every
+        # configuration must treat them alike (whatever that treatment is)
+        (T.Position, {"line": 3.0, "character": 7}),
+        (T.Range, {"start": {"line": 1e2, "character": 0.0}, "end": {"line": 2e2, "character": 5}}),
+        (T.Position, {"line": 1.5, "character": 0}),
+        (T.Position, {"line": True, "character": 0}),
+        (T.Position, {"line": "3", "character": 0}),
+        (T.Diagnostic, {"range": rng_, "message": "m", "severity": 1.0}),
+        (T.Diagnostic, {"range": rng_, "message": 5, "code": 2147483647}),
+        (T.TextDocumentItem, {"uri": "\ufefffile:///bom", "languageId": "\ufeffpy", "version": 1, "text": "\ufeffbom first"}),
+        (T.TextDocumentItem, {"uri": "file:///C:/Users/dev/main.py", "languageId": "  py  ", "version": 1, "text": "line\r\n"}),
+        (T.DocumentSymbol, {"name": "\ufeffname", "kind": 5, "range": rng_, "selectionRange": rng_}),
+        (T.FileSystemWatcher, {"globPattern": "**/*.py", "kind": 7}),
+        (T.SignatureHelp, {"signatures": [{"label": "f()"}], "activeSignature": 0, "activeParameter": None}),
         # undeclared keys (forward compatibility; a forbid_extra_keys converter must say no)
         (T.Position, {"line": 1, "character": 2, "zzUnknown9": True}),
         (T.Location, {"uri": "file:///a", "range": dict(rng_, zzUnknown9=1)}),
